@@ -311,4 +311,20 @@ PROPS = {
             {"name": "schedules", "test": "TestProp_C16", "kind": "rapid", "checks_quick": 64, "checks_thorough": 2000, "shards": 8},
         ],
     },
+    "C19": {
+        "manifest": {
+            "text": "0.3.x layouts synthesised from real SQLite histories (1-3 generations, 1-4 WAL indices each, snapshots at a drawn subset of indices, WALs cut at commit boundaries into LZ4 segments, synthetic strictly increasing file times), optionally one segment removed, optionally a timestamp at/around every file time, optionally a current-format replica next to it; restore must yield the ledger state at the end of the last contiguous eligible segment, or an error when something lies beyond a hole or no snapshot is eligible; format arbitration checked against restoring the current-format files alone",
+            "note": "expected state and arbitration are computed from the layout and file times alone; a missing tail segment of an index followed by a later index is undetectable from the layout and recorded as a known finding",
+            "technique": "property-based testing (rapid) with a reference model of the legacy layout semantics and a differential check for format arbitration",
+        },
+        "binary": "props",
+        "level": "exploration",
+        "rule": ("layouts from histories of insert/update/delete/DDL/incremental-vacuum transactions (20% 'uniform' histories whose WALs have equal lengths, to provoke offset "
+                 "coincidences) x remove in {none, any one segment} x T in {none, each file time -1s/0/+1s} x current-format replica in {absent, older, newer}. "
+                 "Non-trivial = >=2 indices after the snapshot with a WAL split into >=2 segments, or a segment removed, or both formats present; distinct = hash of the case."),
+        "assumptions": ["file replica client (CreatedAt = file mtime)", "segments end at commit boundaries, as 0.3.x produced them"],
+        "runs": [
+            {"name": "layouts", "test": "TestProp_C19", "kind": "rapid", "checks_quick": 2400, "checks_thorough": 60000, "shards": 8},
+        ],
+    },
 }
